@@ -129,6 +129,9 @@ def build(spec, weather_df=None):
             df = pd.DataFrame(co2["series"], columns=["year", "ppm"]).astype(
                 {"year": int, "ppm": float})
             kw["co2_concentration"] = CO2(co2_data=df, **ref)
+        elif co2.get("constant_auto"):
+            # constant at the concentration of the first simulated year (no level given)
+            kw["co2_concentration"] = CO2(constant_conc=True, **ref)
         elif co2.get("default"):
             kw["co2_concentration"] = CO2()
     return kw
